@@ -129,6 +129,10 @@ class Conc(object):
         self.umask = rnd.choice([0o022, 0o022, 0o000, 0o077])
         self.clock_via_env = rnd.random() < 0.5
         self.xdg_link = rnd.random() < 0.3        # $XDG_DATA_HOME is a symlink to a directory (trash dir reached through a link)
+        # TRASH_VOLUMES names the volume m1 as <root>/tvdecoy/L/../m1, L a link to a directory directly under the root: the same
+        # volume for the file system; for whoever collapses '..' lexically it is <root>/tvdecoy/m1, which holds a populated
+        # $uid below a .Trash WITHOUT the sticky bit
+        self.tv_spelled = random.Random('tvspell|%s' % seed).random() < 0.12
         self.deep = (rnd.random() < 0.1) if deep is None else deep     # the sandbox lives under long non-ASCII directories
         self.deep_n = random.Random('deepn|%s' % seed).choice([7, 12, 12])
         # --trash-dir on a non-root volume is always given through a symlink that lives on the root volume (every command
@@ -341,7 +345,7 @@ class World(object):
             return self.rpath('R')         # the volume of the path as spelled (the link lives on the root volume)
         return self.rpath(self.vol_of_region(treg(t)))
 
-    def env(self, extra=None):
+    def env(self, extra=None, script=None):
         e = {'PATH': '/usr/bin:/bin', 'COLUMNS': '80'}
         if self.cfg['home'] == 'set':
             e['HOME'] = self.home()
@@ -360,6 +364,9 @@ class World(object):
             e['TRASH_VOLUMES'] = ':'.join(ms) + rr.choice(['', ':', '::'])
         elif v < 0.3:
             e['TRASH_VOLUMES'] = ''
+        if getattr(self, 'tv_alias', None) and script in ('trash-list', 'trash-empty'):
+            # (not for trash-restore and trash-rm: what they offer / match is compared with the request as strings)
+            e['TRASH_VOLUMES'] = ':'.join(self.tv_alias[1] if m == self.tv_alias[0] else m for m in self.mounts())
         if extra:
             e.update(extra)
         return e
@@ -650,6 +657,21 @@ class World(object):
                     with open(tp + b'/directorysizes', 'wb') as f:
                         f.write(lines)
         self.make_td_links()
+        self.tv_alias = None
+        if getattr(conc, 'tv_spelled', False) and 'V1' in cfg['mounted'] and not getattr(conc, 'deep', False):
+            dec = os.path.join(self.root, 'tvdecoy')
+            os.makedirs(os.path.join(self.root, 'tvsub'), exist_ok=True)
+            os.makedirs(dec, exist_ok=True)
+            os.symlink(os.path.join('..', 'tvsub'), os.path.join(dec, 'L'))
+            top = os.path.join(dec, 'm1', '.Trash')
+            os.makedirs(os.path.join(top, str(conc.uid), 'files'))
+            os.makedirs(os.path.join(top, str(conc.uid), 'info'))
+            os.chmod(top, 0o777)
+            with open(os.path.join(top, str(conc.uid), 'info', 'decoy.trashinfo'), 'wb') as f:
+                f.write(format_info(b'decoy-entry', '2001-01-01T00:00:00'))
+            with open(os.path.join(top, str(conc.uid), 'files', 'decoy'), 'w') as f:
+                f.write('kept in a directory nobody may use')
+            self.tv_alias = (self.rpath('V1'), os.path.join(dec, 'L', '..', 'm1'))
         self.baseline = snapshot(self.root)
         return self
 
